@@ -12,7 +12,9 @@ from ..oracles import ebnf
 
 ID = 'C06'
 LEVEL = 'exploration'
-RULE = ('random derivations (budgeted depth 8-30, <= 400 tokens) from file_input and eval_input of every shipped grammar, '
+RULE = ('(a) bounded-exhaustive derivations: every rule reachable from file_input/eval_input in a cheapest context with every form of its '
+        'right-hand side (alternatives, optional parts, 0/1/2 repetitions; capped per rule) and, one level down, each nonterminal child '
+        'replaced in turn by forms of its own; (b) random derivations (token budgets 4-250, <= 400 tokens) from file_input and eval_input of every shipped grammar, '
         'alternatives chosen with a bias towards not-yet-used (rule, alternative) pairs; each is run (i) in token mode: the token '
         'tuples fed into the real Parser.parse, strict and recovering; (ii) in text mode: rendered with random spellings/'
         'spacing/comments/blank lines/continuations through Grammar.parse(error_recovery=False[, start_symbol]) and with '
@@ -64,6 +66,9 @@ class Gen:
         self._first = {}
         self.first_used = {}
         self.steer = True
+        self.depth = 0
+        self.forced = 0
+        self.ntok = 0
 
     def _cost(self, a, memo=True):
         if memo:
@@ -132,6 +137,7 @@ class Gen:
         if k == 'sym':
             if a[1] in self.rules:
                 return [('node', a[1], self._exp_first(self.rules[a[1]], t, max(budget, self.cost[a[1]]), a[1]))]
+            self.ntok += 1
             return [('tok', a[1])]
         if k == 'seq':
             out = []
@@ -158,9 +164,18 @@ class Gen:
             return out
         raise ValueError(k)
 
+    def _force(self):
+        # over-budget choices only while the derivation is still small
+        self.forced += 1
+        return self.ntok < 150
+
     def derive(self, rule, budget):
         """derivation of `rule` with at most about `budget` tokens (never less than the rule's minimum)"""
-        return ('node', rule, self._exp(self.rules[rule], max(budget, self.cost[rule]), rule))
+        self.depth += 1
+        try:
+            return ('node', rule, self._exp(self.rules[rule], max(budget, self.cost[rule]), rule))
+        finally:
+            self.depth -= 1
 
     def _exp(self, a, budget, rule):
         k = a[0]
@@ -176,6 +191,7 @@ class Gen:
                         cnt[(id(a), t)] = cnt.get((id(a), t), 0) + 1
                         return self._exp_first(a, t, max(budget, self.cost[a[1]]), rule)
                 return [self.derive(a[1], budget)]
+            self.ntok += 1
             return [('tok', a[1])]
         if k == 'seq':
             costs = [self._cost(x) for x in a[1]]
@@ -197,8 +213,12 @@ class Gen:
             return self._exp(x, budget, rule)
         if k == 'opt':
             c = self._cost(a[1])
+            vis = self.used[(id(a), 'v')] = self.used.get((id(a), 'v'), 0) + 1
+            tk = self.used.get((id(a), 't'), 0)
+            # balance: an optional part that is starved by small budgets deep in the tree is taken anyway now and then
             if c <= budget and rng.random() < .55:
-                return self._exp(a[1], budget, rule)
+                self.used[(id(a), 't')] = tk + 1
+                return self._exp(a[1], max(budget, c), rule)
             return []
         if k in ('star', 'plus'):
             c = max(1, self._cost(a[1]))
@@ -208,6 +228,10 @@ class Gen:
             n = nmin
             while (n + 1) * c <= budget and n < 5 and rng.random() < .5:
                 n += 1
+            vis = self.used[(id(a), 'v')] = self.used.get((id(a), 'v'), 0) + 1
+            rep = self.used.get((id(a), 'r'), 0)
+            if n > nmin:
+                self.used[(id(a), 'r')] = rep + 1
             out = []
             left = budget
             for r in range(n):
@@ -234,7 +258,7 @@ def realize(label, rng, T):
     if label == 'STRING':
         return (T.STRING, rng.choice(STRINGS))
     if label == 'FSTRING_STRING':
-        return (T.FSTRING_STRING, rng.choice(['txt', ' a b ', '{{', 'x}}y', '%d']))
+        return (T.FSTRING_STRING, rng.choice(['txt', ' a b ', '{{', 'x}}y', '%d', '=10', '=^5', '>+3']))
     if label == 'NEWLINE':
         return (T.NEWLINE, rng.choice(['\n', '\n', '\n', '\r\n', '\r']))
     return {'INDENT': (T.INDENT, ''), 'DEDENT': (T.DEDENT, ''), 'ENDMARKER': (T.ENDMARKER, ''),
@@ -409,12 +433,217 @@ def render(real, rng, T):
     return ''.join(out)
 
 
-def run_shard(spec, ctx):
-    import parso
+class Systematic:
+    """Bounded-exhaustive derivations: every rule reachable from the start symbols, in a cheapest context, with every
+    *form* of its right-hand side (each alternative; each optional part taken / skipped; each repetition 0/1/2 times --
+    the full product when it has at most `cap` members, otherwise all single deviations from the cheapest form plus
+    sampled combinations), and, one level down, each nonterminal child replaced in turn by `sub` of its own forms
+    (rotating, so that over the forms of the parent all forms of the child are used).  Everything else is expanded in
+    the cheapest way, so the derivations are small and the combination under test is what the parser sees."""
+
+    def __init__(self, G, rng, cap=120, sub=2):
+        self.G, self.rng, self.cap, self.sub = G, rng, cap, sub
+        self.rules = G.rules
+        self._forms = {}
+        self._min = {}
+        self._rot = {}
+
+    # -- forms of a right-hand side: lists of symbols (labels)
+    def _variants(self, a):
+        k = a[0]
+        if k == 'sym':
+            return [[a[1]]]
+        if k == 'seq':
+            out = [[]]
+            for x in a[1]:
+                vs = self._variants(x)
+                out = [p + q for p in out for q in vs]
+                if len(out) > 4000:
+                    out = self.rng.sample(out, 4000)
+            return out
+        if k == 'alt':
+            out = []
+            for x in a[1]:
+                out += self._variants(x)
+            return out
+        if k == 'opt':
+            return [[]] + self._variants(a[1])
+        vs = self._variants(a[1])
+        one = vs
+        two = [p + q for p in vs[:6] for q in vs[:6]]
+        return ([[]] if k == 'star' else []) + one + two
+
+    def forms(self, rule):
+        if rule not in self._forms:
+            vs = self._variants(self.rules[rule])
+            seen, uniq = set(), []
+            for f in vs:
+                t = tuple(f)
+                if t not in seen and not (rule in ('stmt', 'file_input') and f == ['NEWLINE']):
+                    seen.add(t)
+                    uniq.append(f)
+            uniq.sort(key=lambda f: (sum(self.G.cost.get(x, 1) for x in f), f))
+            if len(uniq) > self.cap:
+                uniq = uniq[:self.cap // 2] + self.rng.sample(uniq[self.cap // 2:], self.cap - self.cap // 2)
+            self._forms[rule] = uniq
+        return self._forms[rule]
+
+    def minimal(self, rule):
+        """cheapest derivation of a rule (memoised, shared structure is fine: derivations are read-only)"""
+        if rule not in self._min:
+            self._min[rule] = None
+            best = min(self.forms(rule), key=lambda f: sum(self.G.cost.get(x, 1) for x in f))
+            self._min[rule] = ('node', rule, [self.minimal(x) if x in self.rules else ('tok', x) for x in best])
+        return self._min[rule]
+
+    def contexts(self, starts):
+        """rule -> function embedding a derivation of that rule into a cheapest derivation from a start symbol"""
+        import heapq
+        dist = {s_: 0 for s_ in starts}
+        how = {s_: None for s_ in starts}
+        pq = [(0, s_) for s_ in starts]
+        while pq:
+            d0, p_ = heapq.heappop(pq)
+            if d0 > dist.get(p_, 1e9):
+                continue
+            for f in self.forms(p_):
+                base = sum(self.G.cost.get(x, 1) for x in f)
+                for i, x in enumerate(f):
+                    if x in self.rules:
+                        c = d0 + base - self.G.cost[x]
+                        if c < dist.get(x, 1e9):
+                            dist[x] = c
+                            how[x] = (p_, f, i)
+                            heapq.heappush(pq, (c, x))
+        self.how = how
+        return how
+
+    def embed(self, rule, d):
+        start = rule
+        while self.how.get(start) is not None:
+            p_, f, i = self.how[start]
+            kids = [(d if j == i else (self.minimal(x) if x in self.rules else ('tok', x))) for j, x in enumerate(f)]
+            d = ('node', p_, kids)
+            start = p_
+        return start, d
+
+    def derivations(self, starts):
+        self.contexts(starts)
+        for rule in sorted(self.how):
+            fs = self.forms(rule)
+            for f in fs:
+                kids = [self.minimal(x) if x in self.rules else ('tok', x) for x in f]
+                yield rule, 'form', self.embed(rule, ('node', rule, kids))
+                # one level down: each nonterminal child in turn, with some of its own forms
+                for i, x in enumerate(f):
+                    if x not in self.rules:
+                        continue
+                    cf = self.forms(x)
+                    if len(cf) < 2:
+                        continue
+                    for _ in range(self.sub):
+                        r = self._rot[x] = (self._rot.get(x, 0) + 1) % len(cf)
+                        sub = ('node', x, [self.minimal(y) if y in self.rules else ('tok', y) for y in cf[r]])
+                        k2 = list(kids)
+                        k2[i] = sub
+                        yield rule, 'form+child', self.embed(rule, ('node', rule, k2))
+
+
+def judge_derivation(ctx, v, g, G, start, d, rng, dbg=False):
+    """run one derivation through the real parser (token mode and text mode, strict and recovering) and compare
+    the returned tree with the derivation under the documented conventions"""
     from parso.parser import ParserSyntaxError
     from parso.python.parser import Parser
     from parso.python.token import PythonTokenTypes as T
     from parso.python.tokenize import PythonToken, tokenize
+    used = set()
+    labels = flat(d, [], used)
+    if len(labels) > 400:
+        ctx.count('derivations_too_long_skipped')
+        return
+    real = [realize(l, rng, T) for l in labels]
+    exp = expected(d, list(real), G.reserved, T, root=True)
+    ctx.count('evaluations')
+    ctx.count('tokens_derived', len(real))
+    if len(used & RARE) >= 3:
+        ctx.nontriv(v + start + repr(real))
+    shown = ' '.join(s or t.name for t, s in real)
+    w = {'version': v, 'start': start, 'tokens': [[t.name, s] for t, s in real]}
+    # ---- token mode
+    toks = [PythonToken(t, s, (1, k), '') for k, (t, s) in enumerate(real)]
+    for er in (False, True):
+        if er and start != 'file_input':
+            continue
+        try:
+            m = Parser(g._pgen_grammar, error_recovery=er, start_nonterminal=start).parse(iter(toks))
+        except ParserSyntaxError as e:
+            ctx.violation('sentence_rejected', 'token mode (recovery=%s): sentence of %s rejected at %r: %s' % (
+                er, start, e.error_leaf.value, shown[:300]), w, mode='token', recovery=er)
+            continue
+        except RecursionError:
+            ctx.count('recursion_error_skipped')
+            continue
+        except Exception as e:
+            info = harness.exc_info(e)
+            ctx.violation('parser_raised', 'token mode (recovery=%s): %s: %s in %s' % (er, info['type'], info['text'], info['func']),
+                          w, exc=info, mode='token', recovery=er)
+            continue
+        ctx.count('token_mode_parses')
+        df = first_diff(actual(m), exp)
+        if df:
+            ctx.violation('tree_not_derivation', 'token mode (recovery=%s): %s' % (er, df), w, mode='token', recovery=er)
+    # ---- text mode
+    src = render(real, rng, T)
+    lossless = None
+    try:
+        toks_ = list(tokenize(src, version_info=g.version_info))
+        got = [(t.type, t.string) for t in toks_]
+        lossless = ''.join(t.prefix + t.string for t in toks_) == src
+    except Exception:
+        got = None
+    want = [(t, s) for t, s in real]
+    if got != want:
+        # tokenizer always ends the last logical line: NEWLINE absent only if derivation has none
+        ctx.count('text_mode_out_of_domain')
+        if lossless is False:
+            # the domain restriction ("token sequences the tokenizer can produce") presupposes a tokenizer that keeps the text
+            ctx.violation('tokenizer_not_lossless', 'text mode: prefix+string of the tokens of %r do not spell the text' % (src[:160],),
+                          dict(w, text=src), mode='text')
+        if dbg and ctx.counters['text_mode_out_of_domain'] < 5:
+            ctx.sample({'ood': src, 'got': repr(got)[:300], 'want': repr(want)[:300]})
+        return
+    ctx.count('text_mode_in_domain')
+    w2 = dict(w, text=src)
+    for er in (False, True):
+        if er and start != 'file_input':
+            continue
+        try:
+            if er:
+                m = g.parse(src)
+            else:
+                m = g.parse(src, error_recovery=False, start_symbol=start)
+        except ParserSyntaxError as e:
+            ctx.violation('sentence_rejected', 'text mode (recovery=%s): %r rejected at %r %s' % (er, src[:200], e.error_leaf.value, e.error_leaf.start_pos),
+                          w2, mode='text', recovery=er)
+            continue
+        except RecursionError:
+            ctx.count('recursion_error_skipped')
+            continue
+        except Exception as e:
+            info = harness.exc_info(e)
+            ctx.violation('parser_raised', 'text mode (recovery=%s): %s: %s in %s' % (er, info['type'], info['text'], info['func']),
+                          w2, exc=info, mode='text', recovery=er)
+            continue
+        ctx.count('text_mode_parses')
+        df = first_diff(actual(m), exp)
+        if df:
+            ctx.violation('tree_not_derivation', 'text mode (recovery=%s): %s' % (er, df), w2, mode='text', recovery=er)
+    if len(src) < 100:
+        ctx.sample({'version': v, 'start': start, 'text': src})
+
+
+def run_shard(spec, ctx):
+    import parso
     rng = random.Random(spec['seed'])
     v = spec['version']
     with open('%s/parso/python/grammar%s.txt' % (harness.REPO, v.replace('.', ''))) as f:
@@ -422,89 +651,31 @@ def run_shard(spec, ctx):
     G = Gen(text, rng)
     g = parso.load_grammar(version=v)
     dicts = instrument(g._pgen_grammar, ['file_input', 'eval_input'])
-    for i in range(spec['n']):
+    if spec['kind'] == 'systematic':
+        G.steer = False
+        sy = Systematic(G, rng, cap=spec.get('cap', 120), sub=spec.get('sub', 2))
+        part, parts = spec.get('part', 0), spec.get('parts', 1)
+        n = 0
+        for rule, what, (start, d) in sy.derivations(['file_input', 'eval_input']):
+            n += 1
+            if n % parts != part:
+                continue
+            if ctx.out_of_time():
+                ctx.count('stopped_by_time_budget')
+                break
+            ctx.count('systematic_derivations')
+            ctx.count('systematic:' + what)
+            ctx.observe('systematic_rules:' + v, rule)
+            judge_derivation(ctx, v, g, G, start, d, rng)
+        ctx.counters['systematic_enumerated:' + v] = n
+    for i in range(spec['n'] if spec['kind'] != 'systematic' else 0):
         if ctx.out_of_time():
             ctx.count('stopped_by_time_budget')
             break
         start = 'eval_input' if i % 6 == 5 else 'file_input'
+        G.forced = G.ntok = 0
         d = G.derive(start, rng.choice([4, 10, 25, 60, 120, 250]))
-        used = set()
-        labels = flat(d, [], used)
-        if len(labels) > 400:
-            ctx.count('derivations_too_long_skipped')
-            continue
-        real = [realize(l, rng, T) for l in labels]
-        exp = expected(d, list(real), G.reserved, T, root=True)
-        ctx.count('evaluations')
-        ctx.count('tokens_derived', len(real))
-        if len(used & RARE) >= 3:
-            ctx.nontriv(v + start + repr(real))
-        shown = ' '.join(s or t.name for t, s in real)
-        w = {'version': v, 'start': start, 'tokens': [[t.name, s] for t, s in real]}
-        # ---- token mode
-        toks = [PythonToken(t, s, (1, k), '') for k, (t, s) in enumerate(real)]
-        for er in (False, True):
-            if er and start != 'file_input':
-                continue
-            try:
-                m = Parser(g._pgen_grammar, error_recovery=er, start_nonterminal=start).parse(iter(toks))
-            except ParserSyntaxError as e:
-                ctx.violation('sentence_rejected', 'token mode (recovery=%s): sentence of %s rejected at %r: %s' % (
-                    er, start, e.error_leaf.value, shown[:300]), w, mode='token', recovery=er)
-                continue
-            except RecursionError:
-                ctx.count('recursion_error_skipped')
-                continue
-            except Exception as e:
-                info = harness.exc_info(e)
-                ctx.violation('parser_raised', 'token mode (recovery=%s): %s: %s in %s' % (er, info['type'], info['text'], info['func']),
-                              w, exc=info, mode='token', recovery=er)
-                continue
-            ctx.count('token_mode_parses')
-            df = first_diff(actual(m), exp)
-            if df:
-                ctx.violation('tree_not_derivation', 'token mode (recovery=%s): %s' % (er, df), w, mode='token', recovery=er)
-        # ---- text mode
-        src = render(real, rng, T)
-        try:
-            got = [(t.type, t.string) for t in tokenize(src, version_info=g.version_info)]
-        except Exception:
-            got = None
-        want = [(t, s) for t, s in real]
-        if got != want:
-            # tokenizer always ends the last logical line: NEWLINE absent only if derivation has none
-            ctx.count('text_mode_out_of_domain')
-            if spec.get('debug') and ctx.counters['text_mode_out_of_domain'] < 5:
-                ctx.sample({'ood': src, 'got': repr(got)[:300], 'want': repr(want)[:300]})
-            continue
-        ctx.count('text_mode_in_domain')
-        w2 = dict(w, text=src)
-        for er in (False, True):
-            if er and start != 'file_input':
-                continue
-            try:
-                if er:
-                    m = g.parse(src)
-                else:
-                    m = g.parse(src, error_recovery=False, start_symbol=start)
-            except ParserSyntaxError as e:
-                ctx.violation('sentence_rejected', 'text mode (recovery=%s): %r rejected at %r %s' % (er, src[:200], e.error_leaf.value, e.error_leaf.start_pos),
-                              w2, mode='text', recovery=er)
-                continue
-            except RecursionError:
-                ctx.count('recursion_error_skipped')
-                continue
-            except Exception as e:
-                info = harness.exc_info(e)
-                ctx.violation('parser_raised', 'text mode (recovery=%s): %s: %s in %s' % (er, info['type'], info['text'], info['func']),
-                              w2, exc=info, mode='text', recovery=er)
-                continue
-            ctx.count('text_mode_parses')
-            df = first_diff(actual(m), exp)
-            if df:
-                ctx.violation('tree_not_derivation', 'text mode (recovery=%s): %s' % (er, df), w2, mode='text', recovery=er)
-        if len(src) < 100:
-            ctx.sample({'version': v, 'start': start, 'text': src})
+        judge_derivation(ctx, v, g, G, start, d, rng, spec.get('debug'))
     names = {}
     for r, cd in dicts:
         names.setdefault(r, []).append(cd)
@@ -547,16 +718,21 @@ def replay(w, ctx):
 
 
 def shards(tier, seed):
-    n = 700 if tier == 'quick' else 40000
+    n = 600 if tier == 'quick' else 40000
     out = []
     for v in harness.VERSIONS:
-        for k in range(2 if tier == 'quick' else 4):
+        for k in range(1 if tier == 'quick' else 4):
             out.append({'kind': 'derive', 'version': v, 'n': n, 'budget_s': 70 if tier == 'quick' else 1500})
+        parts = 1 if tier == 'quick' else 3
+        for k in range(parts):
+            out.append({'kind': 'systematic', 'version': v, 'n': 0, 'part': k, 'parts': parts, 'cap': 400 if tier == 'quick' else 2500,
+                        'sub': 4 if tier == 'quick' else 12, 'budget_s': 80 if tier == 'quick' else 3000})
     return out
 
 
 def floors(tier):
-    return {'evaluations': 3000, 'token_mode_parses': 5000, 'text_mode_parses': 1000, 'min_plan_coverage_percent': 40}
+    return {'evaluations': 3000, 'token_mode_parses': 5000, 'text_mode_parses': 1000, 'min_plan_coverage_percent': 40,
+            'systematic_derivations': 60000}
 
 
 def post_merge(m, tier):
